@@ -263,7 +263,11 @@ func LoadEngine(repoDir string, patterns []string, mirrorDir string) (*Engine, e
 				return nil
 			}
 			rel, _ := filepath.Rel(mirrorDir, path)
-			target := filepath.Join("/repo", rel)
+			root := "/repo"
+			if rd := os.Getenv("VERIF_REPO"); rd != "" {
+				root = rd
+			}
+			target := filepath.Join(root, rel)
 			if _, err := os.Stat(target); err != nil {
 				data, _ := os.ReadFile(path)
 				overlay[target] = data
